@@ -133,6 +133,9 @@ func GenConfig(t *rapid.T, tier string, o GenOpts) Config {
 		Cache:     rapid.SampledFrom(caches).Draw(t, "cache"),
 		Marshaler: rapid.SampledFrom(marsh).Draw(t, "marshaler"),
 	}
+	if rapid.IntRange(0, 5).Draw(t, "cmp") == 0 {
+		c.Cmp = "scaled"
+	}
 	if o.NoCustomV1 && c.Format == ref.FormatV1 {
 		c.Marshaler = "json"
 	}
